@@ -7,9 +7,7 @@
 //! elements, plus a malformed share (arity, non-bulk argument, non-integer).
 //! The boundary values that used to crash the server (LREM isize::MIN, SRANDMEMBER i64::MIN,
 //! HINCRBY across the i64 range) are part of the pools since the repairs c5f1b6a, 6f35e51,
-//! 84546fc.  Still NOT generated: SRANDMEMBER with a huge negative count - the server draws
-//! |count| members one by one whatever the set's size (known finding srandmember-neg-work;
-//! witnesses under corpus/C03/disabled/).
+//! 84546fc, and huge negative SRANDMEMBER counts since 9dd4676 (refused above 2^20 draws).
 use crate::resp::V;
 use crate::rng::Rng;
 use crate::srv::*;
@@ -30,7 +28,9 @@ pub const IDX: &[&[u8]] = &[b"0", b"1", b"-1", b"2", b"-2", b"3", b"-3", b"4", b
 pub const LREM_COUNTS: &[&[u8]] = &[b"0", b"1", b"-1", b"2", b"-2", b"3", b"-3", b"100", b"-100", b"9223372036854775807",
     b"-9223372036854775807", b"-9223372036854775808", b"x", b"+1", b"0"];
 pub const SRAND_COUNTS: &[&[u8]] = &[b"0", b"1", b"2", b"3", b"4", b"5", b"-1", b"-2", b"-3", b"-5", b"-20", b"100",
-    b"9223372036854775807", b"-9223372036854775808", b"x", b"", b"+2"];
+    b"9223372036854775807", b"-9223372036854775808", b"x", b"", b"+2",
+    // since 9dd4676 more than 2^20 draws are refused: the boundary and far beyond it
+    b"-1048577", b"-4000000000000", b"-9223372036854775807"];
 pub const SPOP_COUNTS: &[&[u8]] = &[b"0", b"1", b"2", b"3", b"5", b"100", b"18446744073709551615", b"-1", b"x", b"+1",
     b"18446744073709551616"];
 pub const INCRS: &[&[u8]] = &[b"1", b"-1", b"5", b"7", b"-7", b"100", b"9223372036854775807", b"-9223372036854775808",
